@@ -111,6 +111,22 @@ func c17Check(k *fw.K, hdr [4]byte, nc, ne int, pattern int) {
 	if ext := apdu.IsExtended(); ext != cmd.Extended {
 		k.Violation("capdu:isextended", fmt.Sprintf("IsExtended()=%v but encoding is extended=%v", ext, cmd.Extended), detail())
 	}
+	// the encoding handed out belongs to the caller (a driver may set channel bits in it or
+	// wipe it after sending): encoding the same command again still gives the ISO encoding
+	if nc <= 600 || pattern%4 == 1 {
+		keep := append([]byte{}, enc...)
+		for i := range enc {
+			enc[i] ^= 0xA5
+		}
+		again := apdu.Encode()
+		k.Count("cmd_encoded_again_after_caller_overwrote_first_result")
+		if !bytes.Equal(again, keep) {
+			enc = keep
+			k.Violation("capdu:second-encode-differs-after-caller-overwrote-result", fmt.Sprintf("Nc=%d Ne=%d: Encode() twice on one command, the caller overwrote the first result in between: the second result is not the encoding any more", nc, ne), detail())
+			return
+		}
+		enc = keep
+	}
 }
 
 func runC17(c *fw.Ctx) {
@@ -234,6 +250,14 @@ func runC17(c *fw.Ctx) {
 		}
 		if !bytes.Equal(r.Encode(), orig) {
 			k.Violation("rapdu:reencode", "RApdu.Encode() does not reproduce the response", det)
+		}
+		if e1 := r.Encode(); len(e1) > 0 {
+			for i := range e1 {
+				e1[i] ^= 0x5A
+			}
+			if !bytes.Equal(r.Encode(), orig) {
+				k.Violation("rapdu:second-encode-differs-after-caller-overwrote-result", "RApdu.Encode() twice, the caller overwrote the first result in between: the second result is not the response any more", det)
+			}
 		}
 		// aliasing: changing the input afterwards must not change the parsed value
 		if n > 2 {
